@@ -47,7 +47,8 @@ Inductive outcome := Ret (b : bool) | Raise (e : err).
 
 Inductive reply :=
 | RData (content : option bytes) (sig_ok : bool)   (* a Data packet for the command; None = no Content element *)
-| RNack
+| RNack (reason : N)                                (* a network Nack; EVERY reason: 0 = none / element absent,
+                                                       the named ones 50/100/150, unassigned codes *)
 | RTimeout.
 
 Definition cmp_fail (op : cmpop) (sc code : N) : bool :=
@@ -66,7 +67,7 @@ Definition E_EXPRESS : err := EOther 1.   (* InterestNack / InterestTimeout / Va
 Definition finish (p : proto) (r : reply) : outcome :=
   let express_failed := if p_catch_express p then Ret false else Raise E_EXPRESS in
   match r with
-  | RNack | RTimeout => express_failed
+  | RNack _ | RTimeout => express_failed
   | RData c ok =>
       if p_validates p && negb ok then express_failed
       else if negb (p_checks p) then Ret true
